@@ -17,7 +17,7 @@ func init() {
 		tier := fs.String("tier", "quick", "quick|thorough")
 		resPath := fs.String("result", "", "result JSON")
 		_ = fs.Parse(args)
-		res := &Result{Command: "restart", Seed: *seed, Rule: "one start-up per (population of the TLC table, max_size) with random kinds, layouts (v2 / two-level / flat), suffixes and storage mode after restart (quick: every 12th row, chosen by seed); non-trivial = the population exceeds max_size or holds a duplicate key; distinct by row"}
+		res := &Result{Command: "restart", Seed: *seed, Rule: "one start-up per (population of the TLC table, max_size) with random kinds, layouts (v2 / two-level / flat), suffixes and storage mode after restart (quick: every 12th row, thorough: every 3rd row per repetition - three repetitions cover the table -, chosen by seed); non-trivial = the population exceeds max_size or holds a duplicate key; distinct by row"}
 		b, err := os.ReadFile(*casesPath)
 		var cases []eng.RestartCase
 		if err == nil {
@@ -30,7 +30,7 @@ func init() {
 		}
 		stride := 12
 		if *tier == "thorough" {
-			stride = 1
+			stride = 3 // the runner repeats with seeds 1000 apart: three repetitions visit every row once
 		}
 		runs, viols, err := eng.RunRestart(cases, *seed, stride)
 		if err != nil {
